@@ -1,0 +1,311 @@
+//go:build verif
+
+package calendar
+
+// Contracts for the lunar layer (LunarYear tables, Lunar construction and pillars), read by /verif/engine (govc).
+// Comment-only: with or without the build tag `verif` the compiled package is identical.
+
+//@ # ================================================================ year tables as uninterpreted functions
+//@ # The astronomy (LunarYear.compute -> ShouXingUtil) is outside the reach of the verifier. Its *output* enters as
+//@ # uninterpreted functions of the year: month i (0..14) of the table of year y has lunar year mY, signed month
+//@ # number mM (negative = leap), mD days, first day number mF (a Julian Day Number, the month starts at noon JD mF)
+//@ # and running index mI; jq(y,k) is the Julian Day of solar term k (0..30). Everything proved about the lunar layer
+//@ # holds for every table satisfying the axioms below; that the real tables satisfy them for every year 0..9999 is
+//@ # checked by executing the axioms on the real code (bounded stand-in `tables`, complete over that finite domain).
+
+//@ gocode
+//@   var ytCache = map[int]*LunarYear{}
+//@   func yt(y int) *LunarYear {
+//@   	if v, ok := ytCache[y]; ok {
+//@   		return v
+//@   	}
+//@   	v := NewLunarYear(y)
+//@   	ytCache[y] = v
+//@   	return v
+//@   }
+//@   func ytMonth(y int, i int) *LunarMonth { return lat[*LunarMonth](yt(y).GetMonths(), i) }
+
+//@ uninterp spec func mY(y int, i int) int
+//@   = ytMonth(y, i).GetYear()
+//@ uninterp spec func mM(y int, i int) int
+//@   = ytMonth(y, i).GetMonth()
+//@ uninterp spec func mD(y int, i int) int
+//@   = ytMonth(y, i).GetDayCount()
+//@ uninterp spec func mF(y int, i int) int
+//@   = int(ytMonth(y, i).GetFirstJulianDay())
+//@ uninterp spec func mI(y int, i int) int
+//@   = ytMonth(y, i).GetIndex()
+//@ uninterp spec func jq(y int, k int) float64
+//@   = yt(y).GetJieQiJulianDays()[k]
+
+//@ # shape facts of the real tables that the model of *LunarYear relies on (15 months, 31 terms, integral first days)
+//@ spec func tableShape(y int) bool
+//@   = llen(yt(y).GetMonths()) == 15 && len(yt(y).GetJieQiJulianDays()) == 31 && yt(y).GetYear() == y &&
+//@     all(0, 14, func(i int) bool { return ytMonth(y, i).GetFirstJulianDay() == float64(mF(y, i)) && ytMonth(y, i).GetZhiIndex() == modf(mI(y, i)+1, 12) })
+
+//@ axiom tableShapeAx(y int) [C06 C01]
+//@   requires 0 <= y && y <= 9999
+//@   ensures tableShape(y)
+//@   domain y 0 9999
+//@   checked_by tables
+
+//@ # T1 contiguous months, T2 month lengths, T3 the table covers its civil year, T4 lunar year numbers, ranges
+//@ axiom tableAx(y int) [C06 C01 C05]
+//@   requires 1 <= y && y <= 9999
+//@   ensures all(0, 13, func(i int) bool { return mF(y, i+1) == mF(y, i)+mD(y, i) })
+//@   ensures all(0, 14, func(i int) bool { return 28 <= mD(y, i) && mD(y, i) <= 30 && y-1 <= mY(y, i) && mY(y, i) <= y+1 })
+//@   ensures jdn(y-1, 11, 1) <= mF(y, 0) && mF(y, 0) <= jdn(y, 1, 1) && jdn(y, 12, 31) < mF(y, 14)+mD(y, 14) && mF(y, 14)+mD(y, 14) <= jdn(y+1, 4, 1)
+//@   ensures all(0, 13, func(i int) bool { return mY(y, i) <= mY(y, i+1) })
+//@   domain y 1 9999
+//@   checked_by tables
+
+//@ # T9 the lunar year number never runs ahead of the civil year: a month that starts in civil year y or earlier
+//@ # belongs to lunar year <= y. False exactly in the first calendar-reform era, for the tables of AD 15 and AD 18
+//@ # (lunar years 16 and 19 begin in December); those two years are excluded here and handled separately.
+//@ axiom lunarYearNotAhead(y int) [C05 C17]
+//@   requires 1 <= y && y <= 9999 && y != 15 && y != 18
+//@   ensures all(0, 14, func(i int) bool { return implies(mF(y, i) <= jdn(y, 12, 31), mY(y, i) <= y) })
+//@   domain y 1 9999
+//@   checked_by tables
+
+//@ # T10 terms strictly increasing 14.6..15.8 days apart, T12 civil years of selected entries, all inside the
+//@ # range NewSolarFromJulianDay is proved for
+//@ axiom termAx(y int) [C03 C05 C01]
+//@   requires 1 <= y && y <= 9998
+//@   ensures all(1, 30, func(k int) bool { return jq(y, k)-jq(y, k-1) >= 14.6 && jq(y, k)-jq(y, k-1) <= 15.8 })
+//@   ensures float64(jdn(y-1, 11, 25)) <= jq(y, 0) && jq(y, 30) <= float64(jdn(y+1, 3, 20))
+//@   ensures float64(jdn(y-1, 12, 31))+0.5 <= jq(y, 4) && jq(y, 4) < float64(jdn(y, 12, 31))
+//@   ensures float64(jdn(y+1, 1, 1)) <= jq(y, 28)+0.5 && jq(y, 28) < float64(jdn(y+1, 12, 31))
+//@   ensures jq(y, 1)+0.51 < float64(jdn(y, 1, 1)) && float64(jdn(y, 1, 1)) <= jq(y, 25)+0.5 && jq(y, 25)+0.51 < float64(jdn(y+1, 1, 1))
+//@   domain y 1 9998
+//@   checked_by tables
+
+//@ # ================================================================ LunarMonth / LunarYear objects
+
+//@ type LunarMonth established_by NewLunarMonth
+
+//@ spec func monthIs(m *LunarMonth, y int, i int) bool
+//@   = m != nil && m.year == mY(y, i) && m.month == mM(y, i) && m.dayCount == mD(y, i) && m.firstJulianDay == float64(mF(y, i)) && m.index == mI(y, i) && m.zhiIndex == modf(mI(y, i)+1, 12)
+
+//@ spec func isTable(ly *LunarYear) bool
+//@   = all(0, 14, func(i int) bool { return monthIs(lat[*LunarMonth](ly.months, i), ly.year, i) }) &&
+//@     all(0, 30, func(k int) bool { return ly.jieQiJulianDays[k] == jq(ly.year, k) })
+
+//@ # A *LunarYear in circulation is the table of its year (established by NewLunarYear, whose body - cache plus the
+//@ # astronomical compute - is trusted and checked by the `tables` stand-in).
+//@ type LunarYear established_by NewLunarYear LunarYear.compute
+//@   shape months list 15 *LunarMonth
+//@   shape jieQiJulianDays slice 31
+//@   invariant isTable(self)
+
+//@ func NewLunarYear(lunarYear int) *LunarYear [C06 C01]
+//@   trusted
+//@   ensures result.year == lunarYear
+//@   ensures result.ganIndex == modf(lunarYear-4, 10) && result.zhiIndex == modf(lunarYear-4, 12)
+
+//@ # index of the table month of year y that contains day number j (first month whose end lies after j)
+//@ spec func midx(y int, j int) int
+//@   = ite(j < mF(y, 1), 0, ite(j < mF(y, 2), 1, ite(j < mF(y, 3), 2, ite(j < mF(y, 4), 3, ite(j < mF(y, 5), 4,
+//@     ite(j < mF(y, 6), 5, ite(j < mF(y, 7), 6, ite(j < mF(y, 8), 7, ite(j < mF(y, 9), 8, ite(j < mF(y, 10), 9,
+//@     ite(j < mF(y, 11), 10, ite(j < mF(y, 12), 11, ite(j < mF(y, 13), 12, ite(j < mF(y, 14), 13, 14))))))))))))))
+
+//@ # select by symbolic index over the 15 entries
+//@ spec func mYat(y int, i int) int
+//@   = ite(i == 0, mY(y, 0), ite(i == 1, mY(y, 1), ite(i == 2, mY(y, 2), ite(i == 3, mY(y, 3), ite(i == 4, mY(y, 4), ite(i == 5, mY(y, 5), ite(i == 6, mY(y, 6), ite(i == 7, mY(y, 7),
+//@     ite(i == 8, mY(y, 8), ite(i == 9, mY(y, 9), ite(i == 10, mY(y, 10), ite(i == 11, mY(y, 11), ite(i == 12, mY(y, 12), ite(i == 13, mY(y, 13), mY(y, 14)))))))))))))))
+//@ spec func mMat(y int, i int) int
+//@   = ite(i == 0, mM(y, 0), ite(i == 1, mM(y, 1), ite(i == 2, mM(y, 2), ite(i == 3, mM(y, 3), ite(i == 4, mM(y, 4), ite(i == 5, mM(y, 5), ite(i == 6, mM(y, 6), ite(i == 7, mM(y, 7),
+//@     ite(i == 8, mM(y, 8), ite(i == 9, mM(y, 9), ite(i == 10, mM(y, 10), ite(i == 11, mM(y, 11), ite(i == 12, mM(y, 12), ite(i == 13, mM(y, 13), mM(y, 14)))))))))))))))
+//@ spec func mFat(y int, i int) int
+//@   = ite(i == 0, mF(y, 0), ite(i == 1, mF(y, 1), ite(i == 2, mF(y, 2), ite(i == 3, mF(y, 3), ite(i == 4, mF(y, 4), ite(i == 5, mF(y, 5), ite(i == 6, mF(y, 6), ite(i == 7, mF(y, 7),
+//@     ite(i == 8, mF(y, 8), ite(i == 9, mF(y, 9), ite(i == 10, mF(y, 10), ite(i == 11, mF(y, 11), ite(i == 12, mF(y, 12), ite(i == 13, mF(y, 13), mF(y, 14)))))))))))))))
+//@ spec func mDat(y int, i int) int
+//@   = ite(i == 0, mD(y, 0), ite(i == 1, mD(y, 1), ite(i == 2, mD(y, 2), ite(i == 3, mD(y, 3), ite(i == 4, mD(y, 4), ite(i == 5, mD(y, 5), ite(i == 6, mD(y, 6), ite(i == 7, mD(y, 7),
+//@     ite(i == 8, mD(y, 8), ite(i == 9, mD(y, 9), ite(i == 10, mD(y, 10), ite(i == 11, mD(y, 11), ite(i == 12, mD(y, 12), ite(i == 13, mD(y, 13), mD(y, 14)))))))))))))))
+
+//@ # ================================================================ Lunar: the object and its construction
+
+//@ # solar term k of a lunar date's table
+//@ spec func jqs(l *Lunar, k int) *Solar
+//@   = l.jieQi[JIE_QI_IN_USE[k]]
+
+//@ # the Solar s is the valid date-time nearest (to the second) to Julian Day x
+//@ spec func nearJD(s *Solar, x float64) bool
+//@   = s != nil && inYears(s.year) && float64(tsec(s))-x*86400.0 <= 0.501 && x*86400.0-float64(tsec(s)) <= 0.501
+
+//@ # the term table of a Lunar is the table of the civil year y
+//@ spec func termsOf(l *Lunar, y int) bool
+//@   = all(0, 30, func(k int) bool { return nearJD(jqs(l, k), jq(y, k)) })
+
+//@ # Fields of a Lunar are written only while it is being built (NewLunar / NewLunarFromSolar and the compute* helpers)
+//@ # and the memo field eightChar in GetEightChar.
+//@ type Lunar established_by NewLunar NewLunarFromSolar computeJieQi computeYear computeMonth computeDay computeTime computeWeek Lunar.GetEightChar
+//@   shape jieQi mapkeys JIE_QI_IN_USE
+//@   shape jieQiList strlist JIE_QI_IN_USE
+//@   invariant wfLunar(self)
+
+//@ # calendar order of two dates (day resolution) and of two date-times (second resolution); this is the order the
+//@ # library's comparisons of 'YYYY-MM-DD' / 'YYYY-MM-DD HH:MM:SS' strings compute
+//@ spec func dkey(s *Solar) int
+//@   = s.year*10000 + s.month*100 + s.day
+//@ spec func dayBefore(a *Solar, b *Solar) bool
+//@   = dkey(a) < dkey(b)
+//@ spec func sameDay(a *Solar, b *Solar) bool
+//@   = a.year == b.year && a.month == b.month && a.day == b.day
+//@ spec func ikey(s *Solar) int
+//@   = dkey(s)*1000000 + s.hour*10000 + s.minute*100 + s.second
+//@ spec func instBefore(a *Solar, b *Solar) bool
+//@   = ikey(a) < ikey(b)
+
+//@ # calendar order is the order of the day count / of the instant
+//@ lemma solarOrder(a *Solar, b *Solar) [C03 C05]
+//@   requires a != nil && b != nil && inYears(a.year) && inYears(b.year)
+//@   ensures dayBefore(a, b) == (sjdn(a) < sjdn(b)) && sameDay(a, b) == (sjdn(a) == sjdn(b)) && instBefore(a, b) == (tsec(a) < tsec(b))
+//@   use jdnMono(a.year, a.month, a.day, b.year, b.month, b.day)
+//@   use jdnMono(b.year, b.month, b.day, a.year, a.month, a.day)
+
+//@ # the sixteen Jie entries (even positions of the table) are in strictly increasing calendar order, and the
+//@ # entries whose civil year is fixed lie in it (T12): Lichun (4) in year y, Dongzhi (1) in y-1, DONG_ZHI (25) in y
+//@ spec func termsOrdered(l *Lunar, y int) bool
+//@   = all(0, 29, func(k int) bool { return instBefore(jqs(l, k), jqs(l, k+1)) && !dayBefore(jqs(l, k+1), jqs(l, k)) }) &&
+//@     all(0, 14, func(t int) bool { return dayBefore(jqs(l, 2*t), jqs(l, 2*t+2)) }) &&
+//@     jqs(l, 4).year == y && jqs(l, 1).year == y-1 && jqs(l, 0).year == y-1 && jqs(l, 25).year == y && jqs(l, 28).year == y+1
+
+//@ spec func termsInYears(l *Lunar) bool
+//@   = all(0, 30, func(k int) bool { return jqs(l, k) != nil && inYears(jqs(l, k).year) })
+
+//@ func computeJieQi(lunar *Lunar, lunarYear *LunarYear) [C03 C05 C01]
+//@   requires 1 <= lunarYear.year && lunarYear.year <= 9998
+//@   modifies lunar.jieQi lunar.jieQiList
+//@   ensures termsOf(lunar, lunarYear.year)
+//@   ensures termsOrdered(lunar, lunarYear.year)
+//@   use termAx(lunarYear.year)
+//@   use solarOrder(jqs(lunar, k), jqs(lunar, k+1)) for k in 0..29 @ end
+//@   use solarOrder(jqs(lunar, 2*t), jqs(lunar, 2*t+2)) for t in 0..14 @ end
+//@   use jdnMono(jqs(lunar, 4).year, jqs(lunar, 4).month, jqs(lunar, 4).day, lunarYear.year, 1, 1) @ end
+//@   use jdnMono(lunarYear.year, 12, 31, jqs(lunar, 4).year, jqs(lunar, 4).month, jqs(lunar, 4).day) @ end
+//@   use jdnMono(jqs(lunar, 1).year, jqs(lunar, 1).month, jqs(lunar, 1).day, lunarYear.year-1, 1, 1) @ end
+//@   use jdnMono(lunarYear.year-1, 12, 31, jqs(lunar, 1).year, jqs(lunar, 1).month, jqs(lunar, 1).day) @ end
+//@   use jdnMono(jqs(lunar, 0).year, jqs(lunar, 0).month, jqs(lunar, 0).day, lunarYear.year-1, 1, 1) @ end
+//@   use jdnMono(lunarYear.year-1, 12, 31, jqs(lunar, 0).year, jqs(lunar, 0).month, jqs(lunar, 0).day) @ end
+//@   use jdnMono(jqs(lunar, 25).year, jqs(lunar, 25).month, jqs(lunar, 25).day, lunarYear.year, 1, 1) @ end
+//@   use jdnMono(lunarYear.year, 12, 31, jqs(lunar, 25).year, jqs(lunar, 25).month, jqs(lunar, 25).day) @ end
+//@   use jdnMono(jqs(lunar, 28).year, jqs(lunar, 28).month, jqs(lunar, 28).day, lunarYear.year+1, 1, 1) @ end
+//@   use jdnMono(lunarYear.year+1, 12, 31, jqs(lunar, 28).year, jqs(lunar, 28).month, jqs(lunar, 28).day) @ end
+
+//@ # ================================================================ pillars (C05)
+//@ # pillar year of a date under the three conventions (the year whose (year-4) mod 60 names the pillar)
+//@ spec func pyNewYear(l *Lunar) int
+//@   = l.year
+//@ spec func pyLiChunDay(l *Lunar) int
+//@   = ite(dayBefore(l.solar, jqs(l, 4)), l.solar.year-1, l.solar.year)
+//@ spec func pyLiChunExact(l *Lunar) int
+//@   = ite(instBefore(l.solar, jqs(l, 4)), l.solar.year-1, l.solar.year)
+
+//@ spec func yearPillarsOK(l *Lunar) bool
+//@   = l.yearGanIndex == modf(pyNewYear(l)-4, 10) && l.yearZhiIndex == modf(pyNewYear(l)-4, 12) &&
+//@     implies(l.year <= l.solar.year,
+//@       l.yearGanIndexByLiChun == modf(pyLiChunDay(l)-4, 10) && l.yearZhiIndexByLiChun == modf(pyLiChunDay(l)-4, 12) &&
+//@       l.yearGanIndexExact == modf(pyLiChunExact(l)-4, 10) && l.yearZhiIndexExact == modf(pyLiChunExact(l)-4, 12))
+
+//@ spec func yearIndexRanges(l *Lunar) bool
+//@   = 0 <= l.yearGanIndex && l.yearGanIndex <= 9 && 0 <= l.yearZhiIndex && l.yearZhiIndex <= 11 &&
+//@     0 <= l.yearGanIndexByLiChun && l.yearGanIndexByLiChun <= 9 && 0 <= l.yearZhiIndexByLiChun && l.yearZhiIndexByLiChun <= 11 &&
+//@     0 <= l.yearGanIndexExact && l.yearGanIndexExact <= 9 && 0 <= l.yearZhiIndexExact && l.yearZhiIndexExact <= 11 &&
+//@     modf(l.yearGanIndex, 2) == modf(l.yearZhiIndex, 2) && modf(l.yearGanIndexByLiChun, 2) == modf(l.yearZhiIndexByLiChun, 2) && modf(l.yearGanIndexExact, 2) == modf(l.yearZhiIndexExact, 2)
+
+//@ func computeYear(lunar *Lunar) [C05]
+//@   requires lunar.solar != nil && 1 <= lunar.solar.year && lunar.solar.year <= 9998 && termsOrdered(lunar, lunar.solar.year)
+//@   requires lunar.solar.year-1 <= lunar.year && lunar.year <= lunar.solar.year+1
+//@   modifies lunar.yearGanIndex lunar.yearZhiIndex lunar.yearGanIndexByLiChun lunar.yearZhiIndexByLiChun lunar.yearGanIndexExact lunar.yearZhiIndexExact
+//@   ensures yearPillarsOK(lunar) && yearIndexRanges(lunar)
+
+//@ # number of Jie entries (table positions 0, 2, .., 30) on or before the date / instant
+//@ spec func jieCountDay(l *Lunar) int
+//@   = ite(dayBefore(l.solar, jqs(l, 0)), 0, 1) + ite(dayBefore(l.solar, jqs(l, 2)), 0, 1) + ite(dayBefore(l.solar, jqs(l, 4)), 0, 1) + ite(dayBefore(l.solar, jqs(l, 6)), 0, 1) +
+//@     ite(dayBefore(l.solar, jqs(l, 8)), 0, 1) + ite(dayBefore(l.solar, jqs(l, 10)), 0, 1) + ite(dayBefore(l.solar, jqs(l, 12)), 0, 1) + ite(dayBefore(l.solar, jqs(l, 14)), 0, 1) +
+//@     ite(dayBefore(l.solar, jqs(l, 16)), 0, 1) + ite(dayBefore(l.solar, jqs(l, 18)), 0, 1) + ite(dayBefore(l.solar, jqs(l, 20)), 0, 1) + ite(dayBefore(l.solar, jqs(l, 22)), 0, 1) +
+//@     ite(dayBefore(l.solar, jqs(l, 24)), 0, 1) + ite(dayBefore(l.solar, jqs(l, 26)), 0, 1) + ite(dayBefore(l.solar, jqs(l, 28)), 0, 1) + ite(dayBefore(l.solar, jqs(l, 30)), 0, 1)
+//@ spec func jieCountExact(l *Lunar) int
+//@   = ite(instBefore(l.solar, jqs(l, 0)), 0, 1) + ite(instBefore(l.solar, jqs(l, 2)), 0, 1) + ite(instBefore(l.solar, jqs(l, 4)), 0, 1) + ite(instBefore(l.solar, jqs(l, 6)), 0, 1) +
+//@     ite(instBefore(l.solar, jqs(l, 8)), 0, 1) + ite(instBefore(l.solar, jqs(l, 10)), 0, 1) + ite(instBefore(l.solar, jqs(l, 12)), 0, 1) + ite(instBefore(l.solar, jqs(l, 14)), 0, 1) +
+//@     ite(instBefore(l.solar, jqs(l, 16)), 0, 1) + ite(instBefore(l.solar, jqs(l, 18)), 0, 1) + ite(instBefore(l.solar, jqs(l, 20)), 0, 1) + ite(instBefore(l.solar, jqs(l, 22)), 0, 1) +
+//@     ite(instBefore(l.solar, jqs(l, 24)), 0, 1) + ite(instBefore(l.solar, jqs(l, 26)), 0, 1) + ite(instBefore(l.solar, jqs(l, 28)), 0, 1) + ite(instBefore(l.solar, jqs(l, 30)), 0, 1)
+
+//@ # The month pillar advances one step at each Jie: branch = (count-1) mod 12 counted from zi at DA_XUE, i.e. yin (2)
+//@ # from Lichun; stem by the five-tigers rule from the stem of the civil year's Lichun-based year:
+//@ # month n (0 = the month starting at this civil year's Lichun) has stem (2*(Y-4) + 2 + n) mod 10.
+//@ spec func monthPillarsOK(l *Lunar) bool
+//@   = implies(l.year <= l.solar.year,
+//@       l.monthZhiIndex == modf(jieCountDay(l)-3+2, 12) && l.monthGanIndex == modf(2*(l.solar.year-4)+2+jieCountDay(l)-3, 10) &&
+//@       l.monthZhiIndexExact == modf(jieCountExact(l)-3+2, 12) && l.monthGanIndexExact == modf(2*(l.solar.year-4)+2+jieCountExact(l)-3, 10))
+
+//@ spec func monthIndexRanges(l *Lunar) bool
+//@   = 0 <= l.monthGanIndex && l.monthGanIndex <= 9 && 0 <= l.monthZhiIndex && l.monthZhiIndex <= 11 &&
+//@     0 <= l.monthGanIndexExact && l.monthGanIndexExact <= 9 && 0 <= l.monthZhiIndexExact && l.monthZhiIndexExact <= 11
+
+//@ func computeMonth(lunar *Lunar) [C05]
+//@   requires lunar.solar != nil && 1 <= lunar.solar.year && lunar.solar.year <= 9998 && termsOrdered(lunar, lunar.solar.year) && termsInYears(lunar)
+//@   requires yearPillarsOK(lunar) && yearIndexRanges(lunar)
+//@   modifies lunar.monthGanIndex lunar.monthZhiIndex lunar.monthGanIndexExact lunar.monthZhiIndexExact
+//@   ensures monthPillarsOK(lunar) && monthIndexRanges(lunar)
+//@   cut index#2: index == jieCountDay(lunar)-3 && (index < 0) == dayBefore(lunar.solar, jqs(lunar, 4)) && -3 <= index && index <= 13
+//@   cut offset#1: 0 <= offset && offset <= 9 && implies(lunar.year <= lunar.solar.year, offset == modf(2*(lunar.solar.year-4)+2, 10))
+//@   cut index#4: index == jieCountExact(lunar)-3 && (index < 0) == instBefore(lunar.solar, jqs(lunar, 4)) && -3 <= index && index <= 13
+//@   cut offset#2: 0 <= offset && offset <= 9 && implies(lunar.year <= lunar.solar.year, offset == modf(2*(lunar.solar.year-4)+2, 10))
+
+//@ # day pillar: (jdn - 11) mod 60, i.e. 2000-01-01 (jdn 2451545) is wu-wu (4, 6); the early-rat convention
+//@ # (Exact) moves 23:00-23:59 to the next day, the late-rat convention (Exact2) does not
+//@ spec func dayPillarsOK(l *Lunar) bool
+//@   = l.dayGanIndex == modf(sjdn(l.solar)-11, 10) && l.dayZhiIndex == modf(sjdn(l.solar)-11, 12) &&
+//@     l.dayGanIndexExact2 == l.dayGanIndex && l.dayZhiIndexExact2 == l.dayZhiIndex &&
+//@     l.dayGanIndexExact == modf(sjdn(l.solar)-11+ite(l.hour == 23, 1, 0), 10) && l.dayZhiIndexExact == modf(sjdn(l.solar)-11+ite(l.hour == 23, 1, 0), 12)
+
+//@ func computeDay(lunar *Lunar) [C05]
+//@   requires lunar.solar != nil && 0 <= lunar.solar.year && lunar.solar.year <= 9999 && validHms(lunar.hour, lunar.minute, lunar.second)
+//@   modifies lunar.dayGanIndex lunar.dayZhiIndex lunar.dayGanIndexExact lunar.dayZhiIndexExact lunar.dayGanIndexExact2 lunar.dayZhiIndexExact2
+//@   ensures dayPillarsOK(lunar)
+
+//@ # hour pillar: branch by the two-hour slot (23:00-00:59 is zi), stem from the early-rat day stem
+//@ spec func timePillarsOK(l *Lunar) bool
+//@   = l.timeZhiIndex == modf(divf(l.hour+1, 2), 12) && l.timeGanIndex == modf(2*modf(l.dayGanIndexExact, 5)+l.timeZhiIndex, 10)
+
+//@ func computeTime(lunar *Lunar) [C05]
+//@   requires validHms(lunar.hour, lunar.minute, lunar.second) && 0 <= lunar.dayGanIndexExact && lunar.dayGanIndexExact <= 9
+//@   modifies lunar.timeGanIndex lunar.timeZhiIndex
+//@   ensures timePillarsOK(lunar)
+
+//@ func computeWeek(lunar *Lunar) [C05]
+//@   requires lunar.solar != nil && inYears(lunar.solar.year)
+//@   modifies lunar.weekIndex
+//@   ensures lunar.weekIndex == wd(lunar.solar.year, lunar.solar.month, lunar.solar.day)
+
+//@ # ================================================================ the Lunar invariant and the constructors (C01, C07)
+
+//@ # position of a lunar date in the table of its civil year: the month containing its day number
+//@ spec func inTable(l *Lunar) bool
+//@   = l.year == mYat(l.solar.year, midx(l.solar.year, sjdn(l.solar))) && l.month == mMat(l.solar.year, midx(l.solar.year, sjdn(l.solar))) &&
+//@     l.day == sjdn(l.solar)-mFat(l.solar.year, midx(l.solar.year, sjdn(l.solar)))+1 && 1 <= l.day && l.day <= mDat(l.solar.year, midx(l.solar.year, sjdn(l.solar))) &&
+//@     l.solar.year-1 <= l.year && l.year <= l.solar.year+1
+
+//@ # Every Lunar in circulation: its civil date-time, its place in the month table of the civil year, the term table of
+//@ # that year, and every pillar index equal to its specification.
+//@ spec func wfLunar(l *Lunar) bool
+//@   = l.solar != nil && 1 <= l.solar.year && l.solar.year <= 9998 &&
+//@     l.hour == l.solar.hour && l.minute == l.solar.minute && l.second == l.solar.second &&
+//@     inTable(l) && termsOf(l, l.solar.year) && termsOrdered(l, l.solar.year) &&
+//@     yearPillarsOK(l) && yearIndexRanges(l) && monthPillarsOK(l) && monthIndexRanges(l) && dayPillarsOK(l) && timePillarsOK(l) &&
+//@     l.weekIndex == wd(l.solar.year, l.solar.month, l.solar.day)
+
+//@ func NewLunarFromSolar(solar *Solar) *Lunar [C01 C05 C07]
+//@   requires 1 <= solar.year && solar.year <= 9998
+//@   ensures sameSolar(result.solar, solar)
+//@   use tableAx(solar.year)
+//@   use jdnMono(solar.year, solar.month, solar.day, solar.year, 12, 31)
+//@   use jdnMono(solar.year, 12, 31, solar.year, solar.month, solar.day)
+//@   use jdnMono(solar.year, 1, 1, solar.year, solar.month, solar.day)
+//@   use jdnMono(solar.year, solar.month, solar.day, solar.year, 1, 1)
+//@   hint lunarYear#2: lunarYear == mYat(solar.year, midx(solar.year, sjdn(solar))) && lunarMonth == mMat(solar.year, midx(solar.year, sjdn(solar))) &&
+//@                     lunarDay == sjdn(solar)-mFat(solar.year, midx(solar.year, sjdn(solar)))+1 && 1 <= lunarDay && lunarDay <= mDat(solar.year, midx(solar.year, sjdn(solar))) &&
+//@                     solar.year-1 <= lunarYear && lunarYear <= solar.year+1
+//@   split midx(solar.year, sjdn(solar)) in 0..14
